@@ -1,5 +1,11 @@
 ------------------------------ MODULE MC_AStar ------------------------------
-EXTENDS AStarImpl
+EXTENDS AStarImpl, Json
 ScoresMC == {0, -1}
 Scores3 == {0, -1, -2}
+Scores2 == {0, -1}
+(* export of every DAG of the model (single seed: the start node) for execution on the real lattice code *)
+InitExport == /\ dag \in {[links |-> L, seeds |-> {1}] : L \in AllDags}
+              /\ agenda = <<>> /\ out = <<>> /\ dropped = FALSE /\ started = FALSE
+SpecExport == InitExport /\ [][Next]_vars
+DumpDag == PrintT(<<"DAG", ToJson(SetToSeq(dag.links))>>) /\ FALSE
 =============================================================================
